@@ -44,10 +44,6 @@ theorem tran_index_exact {sti : Info} {d : TDif} (hv : TVInv sti d) (i : Nat) (o
 
 /-! ## checking `OpsOK` of a concrete history -/
 
-def distinctb : List Key → Bool
-  | [] => true
-  | k :: ks => !ks.contains k && distinctb ks
-
 theorem distinctb_sound (l : List Key) (h : distinctb l = true) : l.Pairwise (· ≠ ·) := by
   induction l with
   | nil => exact List.Pairwise.nil
@@ -55,22 +51,6 @@ theorem distinctb_sound (l : List Key) (h : distinctb l = true) : l.Pairwise (·
     simp only [distinctb, Bool.and_eq_true, Bool.not_eq_true', List.contains_eq_mem,
       decide_eq_false_iff_not] at h
     exact List.pairwise_cons.mpr ⟨fun b hb e => h.1 (e ▸ hb), ih h.2⟩
-
-def rowOKb (s : State) (id tbl : Nat) (row : Row) : Bool :=
-  match s.tran? id with
-  | none => true
-  | some t => match t.snap[tbl]? with
-    | none => true
-    | some sti => row.keys.length == sti.idx.length
-
-def opOKb (s : State) : Op → Bool
-  | .table n => decide (1 ≤ n)
-  | .out id tbl row => rowOKb s id tbl row
-  | .upd id tbl _ row => rowOKb s id tbl row
-  | .buildC tbl nk => match s.mt[tbl]? with
-    | none => true
-    | some ti => distinctb (ti.rows.map fun r => nkLookup nk r.off)
-  | _ => true
 
 theorem rowOKb_sound (s : State) (id tbl : Nat) (row : Row) (h : rowOKb s id tbl row = true) :
     ∀ t sti, s.tran? id = some t → t.snap[tbl]? = some sti → row.keys.length = sti.idx.length := by
@@ -102,5 +82,30 @@ theorem opsOKb_sound : ∀ (ops : List Op) (s : State), opsOKb s ops = true → 
     intro s h
     simp only [opsOKb, Bool.and_eq_true] at h
     exact ⟨opOKb_sound s op h.1, ih _ h.2⟩
+
+/-! ## the driver checks the hypotheses on every replayed operation -/
+
+theorem freshb_sound (used : List Off) (sz : Off → Nat) (op : Op) (h : freshb used op = true) :
+    OpFresh ⟨used, sz⟩ op := by
+  intro row hr
+  simpa [freshb, hr] using h
+
+/-- whenever the checking driver (`driveStepOK`, what `drv_c06` / `drv_c03` / `drv_c16` run) does
+not answer `!hyp-…` for an operation line, the operation satisfies the hypotheses of the
+invariant theorems in the driver's current state, and the driver did exactly `step` -/
+theorem driveStepOK_checked (ds : DState) (l : List String) (op : Op) (h : parseOp l = some op)
+    (h1 : (driveStepOK ds l).2 ≠ "!hyp-opok") (h2 : (driveStepOK ds l).2 ≠ "!hyp-fresh") :
+    OpOK ds.s op ∧ (∀ row, op.newRow = some row → row.off ∉ ds.used) ∧
+    driveStepOK ds l = (⟨(step ds.s op).1, usedAfter ds.used op⟩, (step ds.s op).2) := by
+  unfold driveStepOK at h1 h2 ⊢
+  split at h1
+  · simp [parseOp] at h
+  · simp only [h] at h1 h2 ⊢
+    by_cases c1 : opOKb ds.s op = true
+    · by_cases c2 : freshb ds.used op = true
+      · refine ⟨opOKb_sound _ _ c1, freshb_sound ds.used (fun _ => 0) op c2, ?_⟩
+        simp [c1, c2]
+      · simp [c1, c2] at h2
+    · simp [c1] at h1
 
 end Gsu.Db
